@@ -27,13 +27,14 @@ Notation exec := (exec W H).
 Notation paints := (paints W H).
 
 (* the screen after h lines of width w were printed from (x0,y0) on screen s, s lines scrolled *)
-Definition chor_screen (s : Z -> Z -> cell) (y0 x0 : Z) (w : nat) (cellss : list (list cell)) : Z -> Z -> cell :=
+Definition shown_screen (s : Z -> Z -> cell) (y0 x0 : Z) (w : nat) (cellss : list (list cell)) (sc : Z) : Z -> Z -> cell :=
   fun y x =>
     let h := Z.of_nat (length cellss) in
-    let sc := Z.max 0 (y0 + h - H) in
     if (y0 <=? y + sc) && (y + sc <? y0 + h) && ((x0 <=? x) && (x <? x0 + Z.of_nat w))
     then nth (Z.to_nat (x - x0)) (nth (Z.to_nat (y + sc - y0)) cellss []) blank_cell
     else if y + sc <? H then s (y + sc) x else blank_cell.
+Definition chor_screen (s : Z -> Z -> cell) (y0 x0 : Z) (w : nat) (cellss : list (list cell)) : Z -> Z -> cell :=
+  shown_screen s y0 x0 w cellss (Z.max 0 (y0 + Z.of_nat (length cellss) - H)).
 
 Section Generic.
 Variables (pre post : list tok) (w : nat) (P : Z -> Prop).
@@ -50,7 +51,7 @@ Lemma chor_spec : forall (lcs : list (list tok * list cell)) (t : term),
   lcs <> [] -> Forall (fun lc => paints (fst lc) (snd lc) /\ length (snd lc) = w) lcs ->
   pend t = false -> 0 <= cx t -> P (cx t) -> 0 <= cy t < H ->
   let t' := run t (chor_toks pre post (map fst lcs)) in
-  sgr t' = default_attrs /\
+  sgr t' = default_attrs /\ cy t' = Z.min (cy t + Z.of_nat (length lcs) - 1) (H - 1) /\
   forall y x, 0 <= y < H -> scr t' y x = chor_screen (scr t) (cy t) (cx t) w (map snd lcs) y x.
 Proof.
   induction lcs as [|[l cells] rest IH]; intros t Hne Hall Hp Hx HPx Hy; [congruence|].
@@ -60,8 +61,8 @@ Proof.
   - (* last line *)
     cbv zeta. cbn [map chor_toks fst snd].
     destruct Hl as [_ Hl]. specialize (Hl t Hp Hx ltac:(lia)). cbv zeta in Hl.
-    destruct Hl as (_ & _ & L3 & _ & L5). split; [exact L3|].
-    intros y x Hyr. rewrite L5. unfold painted, chor_screen. cbn [length nth]. rewrite Hlen.
+    destruct Hl as (L1 & _ & L3 & _ & L5). split; [exact L3|]. split; [cbn [length]; lia|].
+    intros y x Hyr. rewrite L5. unfold painted, chor_screen, shown_screen. cbn [length nth]. rewrite Hlen.
     replace (Z.max 0 (cy t + Z.of_nat 1 - H)) with 0 by lia. rewrite !Z.add_0_r.
     destruct ((y =? cy t) && (cx t <=? x) && (x <? cx t + Z.of_nat w)) eqn:E1.
     + destruct ((cy t <=? y) && (y <? cy t + Z.of_nat 1) && ((cx t <=? x) && (x <? cx t + Z.of_nat w))) eqn:E2; [|lia].
@@ -77,9 +78,9 @@ Proof.
     destruct S as (C1 & C2 & C3 & Hs1).
     set (t1 := run t (pre ++ l ++ post)) in *.
     specialize (IH t1 ltac:(subst rest; discriminate) Hrest C2 ltac:(lia) ltac:(rewrite C1; exact HPx) ltac:(lia)).
-    cbv zeta in IH. destruct IH as [IHa IHb]. split; [exact IHa|].
-    intros y x Hyr. rewrite (IHb y x Hyr). clear IHa IHb.
-    unfold chor_screen. rewrite C1, C3. cbn [length map]. rewrite !map_length. rewrite !Hs1.
+    cbv zeta in IH. destruct IH as (IHa & IHc & IHb). split; [exact IHa|]. split; [rewrite IHc, C3, Hr; cbn [length]; lia|].
+    intros y x Hyr. rewrite (IHb y x Hyr). clear IHa IHb IHc.
+    unfold chor_screen, shown_screen. rewrite C1, C3. cbn [length map]. rewrite !map_length. rewrite !Hs1.
     unfold scroll_up, painted. rewrite Hlen.
     set (h' := Z.of_nat (length rest)).
     replace (Z.of_nat (S (length rest))) with (h' + 1) by lia.
@@ -117,6 +118,15 @@ Proof.
               replace (y + s - cy t) with 0 by lia. reflexivity.
            ++ destruct ((cy t <=? y + s) && (y + s <? cy t + (h' + 1)) && ((cx t <=? x) && (x <? cx t + Z.of_nat w))) eqn:E2; [lia|reflexivity].
         -- destruct ((cy t <=? y + s) && (y + s <? cy t + (h' + 1)) && ((cx t <=? x) && (x <? cx t + Z.of_nat w))) eqn:E2; [lia|reflexivity].
+Qed.
+Corollary chor_spec_scr : forall (lcs : list (list tok * list cell)) (t : term),
+  lcs <> [] -> Forall (fun lc => paints (fst lc) (snd lc) /\ length (snd lc) = w) lcs ->
+  pend t = false -> 0 <= cx t -> P (cx t) -> 0 <= cy t < H ->
+  let t' := run t (chor_toks pre post (map fst lcs)) in
+  sgr t' = default_attrs /\
+  forall y x, 0 <= y < H -> scr t' y x = chor_screen (scr t) (cy t) (cx t) w (map snd lcs) y x.
+Proof.
+  intros lcs t A1 A2 A3 A4 A5 A6. destruct (chor_spec lcs t A1 A2 A3 A4 A5 A6) as (B1 & _ & B3). split; assumption.
 Qed.
 End Generic.
 
